@@ -4124,6 +4124,76 @@ def replay_test_specs_without_expectations(a):
         shutil.rmtree(d, ignore_errors=True)
 
 
+def walk_dir_unfiltered(a):
+    """C17 / C12: which files a directory (or a path given directly) yields. walk_dir is walkdir's own traversal of the base given, ordered by
+    the comparison given, with unreadable entries dropped (flatten over Result) and NOTHING else filtered here - what counts as a file is
+    decided by its callers with Path::is_file(), which follows symbolic links"""
+    ex = a.exec(r"(?:commands::files::)?walk_dir", {"new": lambda ex, av: ("struct", "WalkDir", {"base": av[0] if av else ex.opq()}),
+                                                    "sort_by": lambda ex, av: ("struct", "Sorted", {"of": av[0], "cmp": av[1] if len(av) > 1 else ex.opq()}),
+                                                    "into_iter": lambda ex, av: ("struct", "It", {"of": av[0]}),
+                                                    "flatten": lambda ex, av: ("struct", "Flat", {"of": av[0]})},
+                log=("filter", "filter_map", "filter_entry", "skip", "take", "follow_links", "max_depth", "min_depth", "map", "rev", "skip_while", "take_while"),
+                unroll=1, max_paths=50, deepen=False)
+    a.fns.append("commands::files::walk_dir")
+    bad = []
+    for p in ex.paths:
+        extra = [e for e in p.events if e[0] == "call" and e[1] in ("filter", "filter_map", "filter_entry", "skip", "take", "follow_links", "max_depth", "min_depth",
+                                                                      "map", "rev", "skip_while", "take_while")]
+        r = p.ret
+        ok = (p.outcome == "return" and not extra and r == ("struct", "Flat", {"of": ("struct", "It", {"of": ("struct", "Sorted", {
+            "of": ("struct", "WalkDir", {"base": ex.arg_env["_1"]}), "cmp": ex.arg_env["_2"]})})}))
+        bad.append(f"(and {pc_term(p.pc)} (not {'true' if ok else 'false'}))")
+    c = a.discharge("files/walk_dir/unfiltered-walk", ex, bad,
+                    "walk_dir: flatten(into_iter(sort_by(WalkDir::new(<the base given>), <the comparison given>))) and nothing else - no filter on the entry "
+                    "type (symbolic links are followed by the callers' Path::is_file()), no depth limit, no skipping")
+    if c:
+        c["replay"] = replay_symlinked_inputs(a)
+        c["reproduced"] = c["replay"].get("reproduced", False)
+        a.candidates.append(c)
+
+
+def replay_symlinked_inputs(a):
+    """data, parameter and rules files reached through symbolic links (in a directory / given directly) give the verdict of the files they
+    point to; a key clash in a linked parameter file is still an error"""
+    import os, shutil, subprocess, tempfile
+    exe = a.cli()
+    if not exe:
+        return {"reproduced": False, "note": "native build failed"}
+    d = tempfile.mkdtemp(prefix="cfnverif_replay_")
+    out = []
+    try:
+        os.makedirs(os.path.join(d, "real"))
+        os.makedirs(os.path.join(d, "pdir"))
+        os.makedirs(os.path.join(d, "ddir"))
+        os.makedirs(os.path.join(d, "rdir"))
+        open(os.path.join(d, "real", "p.json"), "w").write('{"P": {"env": "prod"}}\n')
+        open(os.path.join(d, "real", "clash.json"), "w").write('{"D": 2}\n')
+        open(os.path.join(d, "real", "data.json"), "w").write('{"D": 1}\n')
+        open(os.path.join(d, "real", "r.guard"), "w").write("rule r {\n  P.env == \"prod\"\n  D == 1\n}\n")
+        open(os.path.join(d, "real", "merged.json"), "w").write('{"D": 1, "P": {"env": "prod"}}\n')
+        os.symlink(os.path.join(d, "real", "p.json"), os.path.join(d, "pdir", "linked.json"))
+        os.symlink(os.path.join(d, "real", "p.json"), os.path.join(d, "plink.json"))
+        os.symlink(os.path.join(d, "real", "clash.json"), os.path.join(d, "clashlink.json"))
+        os.symlink(os.path.join(d, "real", "data.json"), os.path.join(d, "ddir", "d.json"))
+        os.symlink(os.path.join(d, "real", "r.guard"), os.path.join(d, "rdir", "r.guard"))
+        R, D, M = os.path.join(d, "real", "r.guard"), os.path.join(d, "real", "data.json"), os.path.join(d, "real", "merged.json")
+        run = lambda args: subprocess.run([exe, "validate", "--show-summary", "none"] + args, capture_output=True, text=True, timeout=60).returncode
+        ref = run(["-r", R, "-d", M])
+        for label, args, want in (("parameter file linked inside a directory", ["-r", R, "-d", D, "-i", os.path.join(d, "pdir")], ref),
+                                  ("parameter file given as a link", ["-r", R, "-d", D, "-i", os.path.join(d, "plink.json")], ref),
+                                  ("data file linked inside a directory", ["-r", R, "-d", os.path.join(d, "ddir"), "-i", os.path.join(d, "real", "p.json")], ref),
+                                  ("rules file linked inside a directory", ["-r", os.path.join(d, "rdir"), "-d", M], ref)):
+            rc = run(args)
+            if rc != want:
+                out.append({"case": label, "exit": rc, "exit_with_the_real_files": want})
+        rc = run(["-r", R, "-d", D, "-i", os.path.join(d, "clashlink.json")])
+        if rc in (0, 19):
+            out.append({"case": "linked parameter file defines a key the data defines too", "exit": rc, "expected": "an error exit"})
+        return {"reproduced": bool(out), "mismatches": out}
+    finally:
+        shutil.rmtree(d, ignore_errors=True)
+
+
 def scope_delegations(a):
     """the one-line scope methods: a scope that has no state of its own for a question hands it, unchanged, to the scope / recorder that
     has - and touches nothing else (in particular no memo table is written from a record passing through)"""
@@ -4271,6 +4341,6 @@ SITES = {
     "C03": [param_rule_call],
     "C04": [rule_status_semantics, root_scope_rule_table, scope_delegations, scope_resolution],
     "C01": [rule_status_semantics, root_scope_rule_table, scope_discipline, scope_resolution, scope_delegations, variable_tables],
-    "C17": [merge_map, merge_unwrap, param_files_fold_step, data_input_params_wiring, structured_merge_closure, supported_extension_predicate],
+    "C17": [merge_map, merge_unwrap, param_files_fold_step, data_input_params_wiring, structured_merge_closure, supported_extension_predicate, walk_dir_unfiltered],
     "C08": [merge_unwrap, rulegen_unwrap, test_exit_code_domain, report_builder_total_on_unary],
 }
